@@ -1457,22 +1457,31 @@ func main() {
 		Violations: []violation{}, Drift: []string{}, Notes: []string{}}
 	shapes := map[string]bool{}
 	var all [][]trace.Ev
+	var flat []trace.Ev
 	switch *mode {
 	case "replay":
 		all = replay(*in, *seed, res, shapes)
 	case "directed":
 		all = replay("directed", *seed, res, shapes)
+	case "solo": // -blocks seconds of interval packing
+		flat = soloMode(*seed, *blocks, res)
+	case "packerloop": // -runs networks, -blocks seconds of wall-clock time
+		flat = packerLoopMode(*runs, *seed, *blocks, res)
 	case "random":
 		all = random(*profile, *runs, *blocks, *seed, res, shapes)
 	default:
 		harnessError("unknown mode %s", *mode)
 	}
 	var evs []trace.Ev
-	for i, e := range all {
-		res.RunInfo[i].Start = len(evs)
-		evs = append(evs, e...)
+	if flat != nil {
+		evs = flat // run boundaries are in RunInfo already
+	} else {
+		for i, e := range all {
+			res.RunInfo[i].Start = len(evs)
+			evs = append(evs, e...)
+		}
+		res.Runs = len(all)
 	}
-	res.Runs = len(all)
 	res.Distinct = len(shapes)
 	for k := range shapes {
 		res.Shapes = append(res.Shapes, k)
